@@ -21,7 +21,8 @@ PROPS = {
         "assumptions": COMMON_ASSUME,
     },
     "C10": {
-        "claim": 'Order-insensitivity (deep member permutations), insensitivity to whitespace and escape spelling of the source text (every spelling of a value is read as that value by the model of the serde_json text reader, Model/JsonText.lean), parse-back by a strict JSON reader, injectivity, sortedness, exact integers and rejection of non-integers are Lean theorems over all JSON values (nested-inductive induction, no size bound); model tied to Json::canonicalize by a differential run and oracles (parse-back with serde_json, re-spelled documents).',
+        "lean_modules": ["InTotoModel.Props.C10", "InTotoModel.Props.C10Text"],
+        "claim": 'Order-insensitivity (deep member permutations), insensitivity to whitespace and escape spelling of the source text (every spelling of a value is read as that value by the model of the serde_json text reader, Model/JsonText.lean), parse-back by a strict JSON reader and by the model of the serde_json text reader (the canonical and the pretty-printed text read as the same value), injectivity, sortedness, exact integers and rejection of non-integers are Lean theorems over all JSON values (nested-inductive induction, no size bound); model tied to Json::canonicalize by a differential run and oracles (parse-back with serde_json, re-spelled documents).',
         "level_note": 'Trusted: Lean kernel; hand-written model of convert/write; serde_json escaping, number classification and text grammar as library facts (validated differentially).',
         "technique": 'Lean 4 theorems about an executable model + model/implementation correspondence check (differential run with property oracle)',
         "rule": "ops = canon(value) for generated serde_json values (model is shown a shuffled member order half of the time) and "
@@ -58,7 +59,7 @@ PROPS = {
         "rule": "cases = end-to-end scenarios: a valid layout + link directory (real keys of every scheme, real signatures, optional sub-layouts and inspections) materialised in a scratch directory, usually with one injected fault whose effect is known by construction; ops = verify(scenario with constructed signature validity, observed inspection outcomes) run through the real in_toto_verify with a pinned clock; the model is evaluated under two opposite hash-map iteration orders; distinct = distinct scenario; all are non-trivial (they get past argument parsing into stage 1)",
         "trusted_base": [
                 "ring signature verification = parameter env.valid; clock = env.now (pinned through the verif-hooks clock override); running an inspection = env.run (exit status and recorded link are observed from the real run and handed to the model)",
-                "glob() over the link directory is modelled as 'files named <step>.<8 chars>.link, sorted' for glob-safe step names",
+                "glob() over the link directory is modelled as 'files named <step>.<8 chars>.link, sorted'; a step name that holds pattern syntax (*, ?, [..]) is read as a pattern, as the glob crate does (Model/Glob.lean: file names matched against <step>.????????.link, a rejected pattern is an error)",
                 "the rule engine inside the pipeline is Model/Rules.lean (see C03)"
         ],
         "partial": [],
@@ -78,7 +79,7 @@ PROPS = {
                 "the rule engine inside the pipeline is Model/Rules.lean (see C03)"
         ],
         "partial": [
-                "step names containing glob metacharacters or '/' are outside the model (answer 'unmodelled'); fuzzed under C14"
+                "step names containing '/' (a pattern that spans directories) are outside the model (answer 'unmodelled'); fuzzed under C14"
         ],
         "assumptions": [
                 "the Lean model is hand-written; its tie to the Rust code is the differential run (sampled, plus the stated exhaustive scopes)"
@@ -139,7 +140,7 @@ PROPS = {
         ]
 },
     "C12": {
-        "lean_modules": ["InTotoModel.Props.C12", "InTotoModel.Props.C12Pem"],
+        "lean_modules": ["InTotoModel.Props.C12", "InTotoModel.Props.C12Pem", "InTotoModel.Props.C12KeyId"],
         "claim": "The key id is by definition a function of (type, scheme, hash-algorithm list, material); Lean proves that the hashed preimage determines the description (hex, DER wrapper and PEM writer injective - the PEM text the library writes reads back, through a model of the pem crate's reader with canonical base64, as exactly the DER bytes), the SPKI export/import round trip for all three algorithms, re-export of every standard SPKI unchanged, the hex round trip, and that a parsed key table only maps an id to the key with that intrinsic id (discharging the hypothesis of C02/C15). The model's own SHA-256, base64, PEM and DER recompute every key id and SPKI of the key pool and are compared with the library; constructors (raw, DER, PEM, private, JSON) must give equal ids; standard SPKIs must import and re-export unchanged; DER mutations are compared accept/reject.",
         "level_note": "Trusted: Lean kernel; SHA-256 collision resistance for 'distinct keys have distinct ids'; the hand-written model of the pem crate's reader and of canonical base64 (Model/Pem.lean, compared with pem::parse on written and edited texts); derp's DER reader as modelled in readTlv (validated on mutated inputs); openssl-written fixtures as the standard for RSA/ECDSA SPKI.",
         "technique": 'Lean 4 theorems about an executable model + model/implementation correspondence check (differential run with property oracle)',
@@ -243,23 +244,25 @@ PROPS = {
         "assumptions": COMMON_ASSUME + ["expiry at whole seconds, as the statement prescribes (enforced by LayoutMetadata::new since fix 04de89f)"],
     },
     "C17": {
-        "claim": "The table of string requests made by the crate's hand-written decoders is regenerated from the source on every run; Lean proves that it contains no borrowed request and that a decoder making only owned requests is independent of channel and escape spelling; serde_json's text reader is modelled (Model/JsonText.lean: lexer + token parser with the recursion limit, surrogate pairs, number classification) and Lean proves that every spelling of a value - white space anywhere between tokens, every string character raw, by its two-character escape, as \\uXXXX in either hex case or as a surrogate pair - is read as that value (no bound on size; nesting below the recursion limit); every document type is decoded on the real code through seven entry points and several spellings, valid and near-valid, which must agree.",
+        "claim": "The table of string requests made by the crate's hand-written decoders is regenerated from the source on every run; Lean proves that it contains no borrowed request and that a decoder making only owned requests is independent of channel and escape spelling; serde_json's text reader is modelled (Model/JsonText.lean: lexer + token parser with the recursion limit, surrogate pairs, number classification) and Lean proves that every spelling of a value - white space anywhere between tokens, every string character raw, by its two-character escape, as \\uXXXX in either hex case or as a surrogate pair - is read as that value (no bound on size; nesting below the recursion limit); every document type is decoded on the real code through eleven entry points (serde_json from_str / from_slice / from_reader / from_value, a reader that delivers one byte per call, Json:: and JsonPretty:: from_slice / from_reader / deserialize) and several spellings, valid and near-valid, which must agree.",
         "level_note": "Trusted: Lean kernel; the translator's regular expressions (fail closed: unclassifiable string-like requests are rejected by the theorem); the hand-written model of serde_json's text reader (tied to serde_json::from_str by the readtext differential on spelled, edited, numeral and deeply nested texts); serde's derive machinery is library code covered by the oracle.",
         "technique": "Lean 4 theorem over a table translated from the Rust source on every run + four-channel decoding oracle on the implementation",
         "translate": "strreq.py",
-        "rule": "cases = generated layouts, links, signed blocks, keys, signatures, rules, steps, statements and predicates (plus perturbed / malformed ones) decoded via from_str, from_slice, from_reader, from_value, Json::from_slice, Json::from_reader, Json::deserialize in compact, pretty and two re-spelled (escapes, whitespace, shuffled members) texts; distinct = distinct document type op; non-trivial = the document is accepted",
+        "rule": "cases = generated layouts, links, signed blocks, keys, signatures, rules, steps, statements and predicates (plus perturbed / malformed ones) decoded via from_str, from_slice, from_reader (also one byte per call), from_value, Json:: and JsonPretty:: from_slice / from_reader / deserialize in compact, pretty and two re-spelled (escapes, whitespace, shuffled members) texts; distinct = distinct document type op; non-trivial = the document is accepted",
         "trusted_base": ["serde / serde_json channel behaviour as described in Model/Channel.lean (library behaviour)", "translate/strreq.py scanning rules", "serde_json 1.0 text grammar as encoded in Model/JsonText.lean (readtext differential)"],
         "partial": ["serde's derive machinery (visitor dispatch, Content buffering of untagged enums) is not modelled: the unbounded claims are about hand-written string requests and about the text reader; channel agreement of the derived decoders is the oracle", "floats in the decimal window 1e308 <= |x| < 1e309 (verdict depends on serde_json's float conversion) are outside the text-reader model"],
         "assumptions": COMMON_ASSUME,
     },
     "C18": {
-        "claim": "Lean proves, for all inputs: the strip rule cuts the longest listed prefix that matches; the artifact map never silently replaces one file by another (a key already filed for a different file is an error) and has distinct keys; in_toto_run records materials before and products after the command and returns the command's byproducts. The tree walk (regular files reachable, following links to files/directories/links, cycles skipped) is an executable specification compared with record_artifacts on materialised random trees; digests are recomputed by the model's own SHA-256 (and ring for SHA-512).",
-        "level_note": "Trusted: Lean kernel; the operating system, walkdir and ring's digests are not verified - the walk model is validated differentially; claimed partial.",
+        "lean_modules": ["InTotoModel.Props.C18", "InTotoModel.Props.C18Walk", "InTotoModel.Props.C18Record", "InTotoModel.Props.C18Digest"],
+        "claim": "Lean proves, for all inputs: the strip rule cuts the longest listed prefix that matches; the artifact map never silently replaces one file by another (a key already filed for a different file is an error) and has distinct keys; the directory walk records exactly the reachable regular files - each of them and nothing else (Reach: a regular file that is a child, directly or through links, or reachable likewise from a child directory that is not a link back to a directory being visited; c18_walk_records_exactly_the_reachable_files, for every tree, depth and arrangement of links); record_artifacts as a whole (several arguments, strip prefixes, duplicate check): on success every argument was walked, every file found has an entry under its stripped key which is this very file, every entry is such a file (c18_record_artifacts); the streamed digest of calculate_hashes (a context per algorithm fed with whatever each read call returned) is the standard one-shot digest of the bytes read, for every way the reader cuts its input, with the size, and an error exactly when a read fails first or no algorithm is requested (c18_streamed_digest_is_the_digest_of_the_bytes, c18_calculate_hashes; generic in compression function and padding, instantiated for SHA-256 and SHA-512); in_toto_run records materials before and products after the command and returns the command's byproducts. Correspondence: record(tree, arguments, strips) on materialised random trees with links, cycles and links named as arguments, with an independent std::fs walk as oracle; calculate_hashes on readers that follow a schedule of portions (hashes op) with ring's one-shot digests as oracle; the link builder's add_material / add_product; in_toto_run in six variants (signing key, hash-algorithm selections, strip prefixes, empty command, non-zero exit status).",
+        "level_note": "Trusted: Lean kernel; the operating system and walkdir as encoded in Model/Record.lean (validated by the record differential and the independent walk oracle); the SHA-256 / SHA-512 compression functions of the model are executable specifications compared with ring (sha256 / sha512 / hashes ops), the iteration over blocks and the streaming interface are proved; ring's Context is assumed to implement that interface.",
         "technique": 'Lean 4 theorems about an executable model + model/implementation correspondence check (differential run with property oracle)',
-        "rule": "ops = lstrip(path, strips) through record_artifact on a real file and record(tree, path arguments, strips) on materialised trees (depth <= 3, empty / small / 1020-1029-byte / multi-block files, names with spaces, Unicode, leading dots, absolute and relative links to files and directories, link chains, cycles, overlapping and non-normalised path arguments, strip lists, sha256/sha512/unknown algorithm); in_toto_run checked every 5th tree; distinct = distinct op; all record ops are non-trivial",
-        "trusted_base": ["OS file system semantics, walkdir 2 (follow_links, loop detection only when following a link), ring digests: modelled in Model/Record.lean as an executable specification, validated differentially",
+        "rule": "ops = lstrip(path, strips) through record_artifact on a real file; hashes(algorithms, reads) = calculate_hashes on a reader cutting 0..4096 bytes into full buffers / single bytes / short reads / block-size neighbours / an early end / a failing read, for no, one, repeated and both algorithms; record(tree, path arguments, strips) on materialised trees (depth <= 3, empty / small / 1020-1029-byte / multi-block files, names with spaces, Unicode, leading dots, absolute and relative links to files and directories, link chains, cycles, overlapping and non-normalised path arguments, links named as arguments before / after their directory, strip lists, sha256/sha512/unknown algorithm); in_toto_run checked every 5th tree in six variants; distinct = distinct op; all record ops are non-trivial",
+        "trusted_base": ["OS file system semantics and walkdir 2 (follow_links, loop detection only when following a link): modelled in Model/Record.lean as an executable specification, validated differentially and by an independent std::fs walk",
+                         "ring::digest::Context as an implementation of the incremental interface of Model/Md.lean; the compression functions and paddings of Model/Sha256.lean / Model/Sha512.lean are compared with ring, not proved against FIPS 180-4",
                          "process execution in in_toto_run (env.exec parameter)"],
-        "partial": ["walk = reachable files is not a theorem about the OS: differential only", "broken links are outside the generator (walkdir reports an error, the model too)"],
+        "partial": ["the walk theorems are about the model of the file system; that the OS and walkdir behave as modelled is the differential", "broken links are outside the generator (walkdir reports an error, the model too)"],
         "assumptions": COMMON_ASSUME,
     },
     "C19": {
